@@ -62,9 +62,27 @@ Definition chk_unpack_branch_key (c : pystr * list pystr) : bool :=
 Definition chk_py_int (c : pystr * res Z) : bool := res_eqb Z.eqb (py_int (fst c)) (snd c).
 
 (* ---- session identifiers: Database.encrypted_branch_id / decrypt_branch_id without the Fernet layer:
-   plaintext = lv_pack(rnd, branch_key( *path));  path = unpack_branch_key(lv_unpack(plain)[1]) ---- *)
+   plaintext = lv_pack(rnd, branch_key( *path), "");  path = unpack_branch_key(lv_unpack(plain)[1]).
+   The empty last item is there because of the encrypter (cryptojwt's FernetEncrypter): it pads the text with
+   blanks before encrypting and strips trailing blanks after decrypting, so what comes back is the plaintext up
+   to trailing blanks (through_encrypter).  A plaintext that ends in the key would lose the blanks the key ends
+   in (sid_plain_legacy, the framing before the repair; such identifiers still decode). ---- *)
+Definition blank : N := 32.
 Definition sid_plain (rnd : pystr) (path : list pystr) : res pystr :=
+  k <- branch_key path ;; Ok (lv_pack [rnd; k; []]).
+Definition sid_plain_legacy (rnd : pystr) (path : list pystr) : res pystr :=
   k <- branch_key path ;; Ok (lv_pack [rnd; k]).
+(* bytes.rstrip(b" ") *)
+Fixpoint rstrip_blanks (s : pystr) : pystr :=
+  match s with
+  | [] => []
+  | c :: r => match rstrip_blanks r with
+              | [] => if N.eqb c blank then [] else [c]
+              | r' => c :: r'
+              end
+  end.
+(* encrypt pads with n blanks (whatever n), decrypt strips every trailing blank *)
+Definition through_encrypter (n : nat) (t : pystr) : pystr := rstrip_blanks (t ++ repeat blank n).
 Definition sid_path (plain : pystr) : res (list pystr) :=
   l <- lv_unpack plain ;;
   match l with _ :: k :: _ => Ok (unpack_branch_key k) | _ => Err IndexError end.
